@@ -35,6 +35,11 @@ def det(a: PolyLike) -> ndpoly:
     a = numpoly.aspolynomial(a)
     assert a.ndim >= 2, a
     assert a.shape[-2] == a.shape[-1], a.shape
+    # booleans and narrow integers are multiplied in the platform integer
+    # (like numpy.prod does): the determinant must not wrap around
+    dtype = numpy.prod(numpy.empty(0, dtype=a.dtype)).dtype
+    if a.dtype != dtype:
+        a = a.astype(dtype)
     dims = a.shape[-1]
     index = (slice(None),) * (a.ndim - 2)
     if dims == 1:
